@@ -126,11 +126,11 @@ type Ctx struct {
 	Prog    *ssa.Program
 	SSA     map[string]*ssa.Package
 	// all functions with bodies that belong to the module (incl. closures, instances)
-	ModFuncs []*ssa.Function
+	ModFuncs   []*ssa.Function
 	Notes      []string // what the normalisation pre-pass did
 	Normalised bool
-	cg       *cgraph
-	loadS    float64
+	cg         *cgraph
+	loadS      float64
 }
 
 type checkerBroken struct{ msg string }
